@@ -102,7 +102,7 @@ def _prepare_scratch():
     return src
 
 
-def run_native_batch(crates, filt='verif_native', timeout=3600, build_only=False):
+def run_native_batch(crates, filt='verif_native', timeout=3600, build_only=False, tier='quick'):
     """build + run all verif_native tests of the given crates; returns {crate: (rc, output, seconds)}"""
     os.makedirs(CACHE, exist_ok=True)
     os.makedirs(NATIVE_ROOT, exist_ok=True)
@@ -111,7 +111,7 @@ def run_native_batch(crates, filt='verif_native', timeout=3600, build_only=False
         fcntl.flock(lock, fcntl.LOCK_EX)
         try:
             src = _prepare_scratch()
-            env = dict(os.environ, CARGO_TARGET_DIR=os.path.join(CACHE, 'native-target'), CARGO_NET_OFFLINE='true', RUST_BACKTRACE='0',
+            env = dict(os.environ, CARGO_TARGET_DIR=os.path.join(CACHE, 'native-target'), CARGO_NET_OFFLINE='true', RUST_BACKTRACE='0', VERIF_TIER=tier,
                        RUSTFLAGS=os.environ.get('RUSTFLAGS', ''))
             for crate in crates:
                 t0 = time.time()
@@ -133,10 +133,10 @@ def run_native_batch(crates, filt='verif_native', timeout=3600, build_only=False
     return out
 
 
-def _crate_result(crate):
-    key = (crate, os.getpid())
+def _crate_result(crate, tier='quick'):
+    key = (crate, os.getpid(), tier)
     if key not in _batch:
-        _batch[key] = run_native_batch([crate])[crate]
+        _batch[key] = run_native_batch([crate], tier=tier)[crate]
     return _batch[key]
 
 
@@ -147,7 +147,7 @@ def run_native(job, wd, tier, seed, replay_input=None):
     import threading
     lk = _crate_locks.setdefault(job['crate'], threading.Lock())
     with lk:
-        rc, output, secs, cmd = _crate_result(job['crate'])
+        rc, output, secs, cmd = _crate_result(job['crate'], tier)
     res = dict(id=job['id'], engine='native (cargo test on a scratch copy of the real crate)', cls=job['cls'], bound=job['bound'],
                target=job['target_file'] + ' + native/' + job['harness'] + ' :: ' + job['test'], seconds=secs, cmd=cmd,
                trusted=['native job %s: rustc/cargo of the repository toolchain; harness native/%s' % (job['id'], job['harness'])])
